@@ -16,10 +16,12 @@ pub struct XmlCfg {
     pub discard_bom: bool,
     pub profile: bool,
     pub with_rcdom: bool,
+    /// token-level sink answers an end tag named `script` with Script (as the tree builder does)
+    pub script_pause: bool,
 }
 impl Default for XmlCfg {
     fn default() -> Self {
-        XmlCfg { exact_errors: false, discard_bom: true, profile: false, with_rcdom: false }
+        XmlCfg { exact_errors: false, discard_bom: true, profile: false, with_rcdom: false, script_pause: false }
     }
 }
 impl XmlCfg {
@@ -32,6 +34,7 @@ pub struct XRec {
     pub toks: RefCell<Vec<String>>,
     pub errors: RefCell<Vec<(String, usize)>>,
     pub eofs: Cell<u32>,
+    pub script_pause: bool,
 }
 impl TokenSink for XRec {
     type Handle = ();
@@ -56,7 +59,9 @@ impl TokenSink for XRec {
                 self.eofs.set(self.eofs.get() + 1);
                 t.push("EOF".into());
             },
-            Token::Tag(tag) => t.push(format!(
+            Token::Tag(tag) => {
+                let pause = self.script_pause && tag.kind == xml5ever::tokenizer::TagKind::EndTag && &*tag.name.local == "script";
+                t.push(format!(
                 "{:?}:{}:{}|{}",
                 tag.kind,
                 tag.name.prefix.as_ref().map(|p| p.to_string()).unwrap_or_default(),
@@ -66,7 +71,11 @@ impl TokenSink for XRec {
                     .map(|a| format!("{}:{}={:?}", a.name.prefix.as_ref().map(|p| p.to_string()).unwrap_or_default(), a.name.local, a.value.to_string()))
                     .collect::<Vec<_>>()
                     .join(",")
-            )),
+                ));
+                if pause {
+                    return ProcessResult::Script(());
+                }
+            },
             Token::Doctype(d) => t.push(format!("DT:{:?}:{:?}:{:?}", d.name.map(|s| s.to_string()), d.public_id.map(|s| s.to_string()), d.system_id.map(|s| s.to_string()))),
             Token::ProcessingInstruction(p) => t.push(format!("PI:{:?}:{:?}", p.target.to_string(), p.data.to_string())),
             Token::Comment(c) => t.push(format!("C:{:?}", c.to_string())),
@@ -85,7 +94,7 @@ pub struct XTokOut {
 }
 
 pub fn run_xml_tokens(cfg: &XmlCfg, sched: &[Feed], end: bool, want_dump: bool) -> XTokOut {
-    let sink = XRec { toks: RefCell::new(vec![]), errors: RefCell::new(vec![]), eofs: Cell::new(0) };
+    let sink = XRec { toks: RefCell::new(vec![]), errors: RefCell::new(vec![]), eofs: Cell::new(0), script_pause: cfg.script_pause };
     let tok = XmlTokenizer::new(
         sink,
         XmlTokenizerOpts { exact_errors: cfg.exact_errors, discard_bom: cfg.discard_bom, profile: cfg.profile, initial_state: None },
